@@ -84,6 +84,34 @@ def check_update(x, new, xinf, tau, dt):
     return None
 
 
+def float_unit_interval_cases(viol):
+    """The float face of `gates stay in [0,1]` (theorems C03_update_in_unit_interval_binary64/32): the two exponential
+    updates of solver_gate.py, in float32 AND float64, at the corners where rounding could push the convex combination
+    out of the interval: x, x_inf in {0, tiny, 1 - ulp, 1}, dt/tau from 1e-9 (decay factor 1 - ulp) to 1e3 (factor 0)."""
+    import numpy as np
+    import jax.numpy as jnp
+    from jaxley.solver_gate import exponential_euler, solve_inf_gate_exponential
+    n = 0
+    for dtype in (np.float32, np.float64):
+        one = dtype(1.0)
+        corners = [dtype(0.0), np.finfo(dtype).tiny, np.nextafter(one, dtype(0.0)), one, dtype(0.5), dtype(1.0) / dtype(3.0)]
+        ratios = np.concatenate([10.0 ** np.linspace(-9, 3, 97), [np.finfo(dtype).eps, np.finfo(dtype).eps / 2, 0.6931471805599453]]).astype(dtype)
+        X, I, Rr = np.meshgrid(np.asarray(corners, dtype=dtype), np.asarray(corners, dtype=dtype), ratios, indexing="ij")
+        x, xi, r = (jnp.asarray(a.reshape(-1), dtype=dtype) for a in (X, I, Rr))
+        for name, out in (("exponential_euler", exponential_euler(x, r, xi, jnp.ones_like(r))),
+                          ("solve_inf_gate_exponential", solve_inf_gate_exponential(x, r, xi, jnp.ones_like(r)))):
+            out = np.asarray(out)
+            n += out.size
+            bad = np.nonzero(~(np.isfinite(out) & (out >= 0) & (out <= 1)))[0]
+            if out.dtype != dtype:
+                continue        # x64 disabled: the float64 sweep ran in float32, already covered
+            for k in bad[:3]:
+                viol.append({"kind": "gate update leaves [0,1] in floating point", "function": name, "dtype": np.dtype(dtype).name,
+                             "x": float(X.reshape(-1)[k]), "x_inf": float(I.reshape(-1)[k]), "dt_over_tau": float(Rr.reshape(-1)[k]),
+                             "new": float(out[k]), "finding_class": None})
+    return n
+
+
 def run(ctx):
     import numpy as np
     from jaxley.synapses import IonotropicSynapse, TestSynapse
@@ -172,6 +200,11 @@ def run(ctx):
                     None if (math.isfinite(new[k]) and 0 <= new[k] <= 1) else "not finite / outside [0,1]")
                 if why:
                     viol.append(dict(case, kind=why, state=k, new=new, xinf=sinf, tau=tau))
+    try:
+        evals += float_unit_interval_cases(viol)
+    except Exception as ex:
+        import traceback
+        viol.append({"kind": "float unit-interval cases raised", "error": repr(ex)[:300], "trace": traceback.format_exc()[-500:]})
     for v in viol:
         v.setdefault("finding_class", None)
     return {"evaluations": evals, "distinct_nontrivial": len(distinct),
